@@ -290,9 +290,13 @@ def l2_backend(name, group, aad, sizes, quick=True, paserk=True, pke=True, publi
                                 doc="%s PBKW: tamper class %s must be rejected" % (name, n[10:])))
         for n in ("pw_unwrap_arbitrary_n0", "pw_unwrap_arbitrary_below", "pw_unwrap_arbitrary_above"):
             ln = {"n0": 0, "below": sizes["pw_over"] - 1, "above": sizes["pw_over"] + 1}[n.rsplit("_", 1)[1]]
-            out["C04"].append(H(group, P + n, q if n.endswith("_above") else "t", timeout=1500, mem=14, mode="full", replay="native:pw_params" if ln else "native:arbitrary_len",
+            out["C04"].append(H(group, P + n, "t", timeout=2400, mem=20, mode="full", replay="native:pw_params" if ln else "native:arbitrary_len",
                                 schema=[("pass", "bytes:1"), ("blob", "bytes:%d" % ln)] if ln else [],
                                 replay_args={"backend": name, "op": "pw", "n": ln}, doc="%s: get_params + pw_unwrap_key on arbitrary bytes of length %d (above the minimum: every parameter block reaches the KDF parameter validation)" % (name, ln)))
+        if name in ("v4", "v2"):
+            out["C04"].append(H(group, P + "c04_pw_unwrap_to_kdf", q, timeout=1500, mem=14, mode="full", replay="native:pw_params",
+                                schema=[("pass", "bytes:1"), ("blob", "bytes:89")], replay_args={"backend": name, "op": "pw", "n": 89},
+                                doc="%s: get_params + pw_unwrap_key on every 89-byte blob (all salts, cost parameters, nonces): no panic between parsing and the entry of Argon2 (the argon2 model keeps the crate's `p_cost * 8` arithmetic); the path ends at the KDF" % name))
     if pke:
         out["C05"].append(H(group, P + "pke_roundtrip_", q, timeout=1800, mem=14, mode="lean", replay="native:pke", schema=[],
                             replay_args={"backend": name, "w": 255, "out_len": sizes["pke_len"], "loops": sizes.get("pke_loops", 300)},
@@ -431,6 +435,8 @@ _jv = [H("json_units", "validators::" + n, t, timeout=2400 if "leeway_exact" in 
     ("subject_2_2", "qt", "ForSubject: present and equal (2-byte strings), decoys in the other claims"),
     ("subject_1_2", "t", "ForSubject: different lengths never accepted"),
     ("subject_0_0", "t", "ForSubject: empty strings; absent claim rejected"),
+    ("subject_257_1", "t", "ForSubject: claim of 257 bytes vs expected 1 byte (lengths equal mod 256) is rejected for all contents"),
+    ("issuer_1_257", "t", "FromIssuer: 1-byte claim vs 257-byte expected value"), ("audience_256_0", "t", "ForAudience: 256-byte claim vs empty expected value"),
     ("issuer_3_3", "qt", "FromIssuer 3-byte strings"), ("issuer_2_3", "t", "FromIssuer different lengths"),
     ("audience_2_2", "qt", "ForAudience 2-byte strings"), ("audience_3_1", "t", "ForAudience different lengths")]]
 
@@ -529,7 +535,7 @@ _api = [H("core_units", "api::" + n, t, timeout=to, mem=12, mode="nomem", doc=d)
     ("key_fromstr_is_keytext_then_decode", "qt", 900, "Key::from_str = KeyText::from_str then V::decode on exactly the decoded bytes (header fixed, 4-char symbolic tail)"),
     ("keyid_roundtrip_eq_ord_hash", "t", 1800, "KeyId: FromStr(Display(id)) == id; Eq/Ord/Hash agree with the 33 bytes"),
     ("token_p2_nodot", "qt", 900, "SealedToken: 'v4.local.' + every 2-byte tail without '.': accepted iff canonical base64url; Display round trip"),
-    ("token_p2_dot_f0", "qt", 900, "SealedToken 2-char payload + trailing '.': Display drops it"),
+    ("token_p2_dot_f0", "t", 2400, "SealedToken 2-char payload + trailing '.': Display drops it"),
     ("token_p2_dot_f1", "qt", 900, "SealedToken 2-char payload, '.', one arbitrary byte (a 1-char footer is never valid, a second '.' is rejected)"),
     ("token_p4_nodot", "t", 1500, "SealedToken: 'v4.local.' + every 4-byte tail without '.', accepted iff canonical base64url; Display round trip"),
     ("token_p3_nodot", "t", 900, "SealedToken, 3-char payload"), ("token_p0_nodot", "t", 600, "SealedToken, empty payload"),
@@ -575,8 +581,8 @@ _v2 = l2_backend("v2", "v2", False, {"secret_len": 64, "pke_len": 96, "nonce": 2
 _xa = {"C16": [H("v3awslc", "proofs::pw_rng_fail_closed_at0", "t", timeout=900, mode="lean", replay="none", doc="v3-aws-lc PBKW: failure of the salt draw only => Err"),
                H("v3awslc", "proofs::pw_rng_fail_closed_at1", "t", timeout=900, mode="lean", replay="none", doc="v3-aws-lc PBKW: failure of the nonce draw only => Err"),
                H("v3awslc", "proofs::local_nonce_is_draw_", "t", timeout=600, mode="lean", replay="none", doc="v3-aws-lc: the token nonce is exactly the drawn randomness")],
-       "C04": [H("v3awslc", "proofs::c04_ffi_ledger_sign", "qt", timeout=1500, mem=14, mode="full", replay="none",
-                 doc="v3-aws-lc unsafe FFI wrappers (lc/mod.rs, lc/ptr.rs): key parsing, public-key derivation, signing, signature serialisation, clone and encode free every aws-lc object exactly once and never use one after free (alloc/free ledger of the FFI model), every Kani memory-safety check on"),
+       "C04": [H("v3awslc", "proofs::c04_ffi_ledger_sign", "qt", timeout=1500, mem=14, mode="lean", replay="none", fs=4,
+                 doc="v3-aws-lc unsafe FFI wrappers (lc/mod.rs, lc/ptr.rs): key parsing, public-key derivation, signing, signature serialisation, clone and encode free every aws-lc object exactly once and never use one after free (alloc/free ledger and use-after-free assertions of the FFI model; lean mode: CBMC's own pointer instrumentation is off for this harness, it is on for the key-parse ledger harness)"),
                H("v3awslc", "proofs::c04_ffi_ledger_key_parse", "qt", timeout=1500, mem=14, mode="full", replay="none",
                  doc="v3-aws-lc FFI wrappers: parsing arbitrary 48-byte secret and 49-byte public keys balances the alloc/free ledger on accept and on every reject path"),
                H("v3awslc", "proofs::c04_public_key_codec_len1", "qt", timeout=900, mem=12, mode="lean", replay="native:parse_any", schema=[], replay_args={"string": "k3.public.AA"},
@@ -603,7 +609,7 @@ _demote(_v2, ["local_roundtrip_m3_f2", "public_roundtrip_m3_f2", "local_tamper_p
 _demote(_v4, ["c10_pke_key_wrong_len_32", "c08_local_key_codec_n32", "c08_signing_key_codec_public", "c08_signing_key_codec_rederive", "c13_id_transcript_lid"] + ["local_roundtrip_m3_f2", "public_roundtrip_m3_f2", "local_tamper_payload_bit", "local_tamper_w8", "local_tamper_w10", "local_tamper_w6", "local_tamper_w14",
               "public_tamper_payload_bit", "public_tamper_w8", "public_tamper_w12", "rng_fail", "nonce_is_draw", "pie_roundtrip_local", "pie_tamper_w0", "pie_tamper_w1",
               "pke_roundtrip", "pke_tamper_w0", "local_unseal_arbitrary_below", "local_unseal_arbitrary_min", "public_unseal_arbitrary_below", "pie_unwrap_arbitrary_below",
-              "pw_unwrap_arbitrary_above"])
+              "c04_pw_unwrap_to_kdf"])
 # public-token harnesses: smaller field-sensitivity limit (measured on v4: public_roundtrip 1500 s timeout -> 184 s; it slows
 # PIE/PKE harnesses down, so it is per harness)
 for _tab in (_v4, _v3, _v2, _va, _vs):
@@ -627,7 +633,7 @@ for _h in PROPS["C04"].harnesses + PROPS["C09"].harnesses:
         n = _h.name
         keep = ("l0_" in n or any(n.endswith(x) for x in ("strict_n0", "strict_n2", "strict_n3", "strict_n4", "strict_n5", "strict_n6", "small_dst", "roundtrip_empty",
                 "roundtrip_n1", "roundtrip_n2", "roundtrip_n3", "roundtrip_n4", "agrees_n2", "agrees_n3", "keytext_local_t0", "keytext_local_t2", "keytext_local_t3",
-                "pie_local_t2", "pw_local_t2", "seal_t2", "token_p2_nodot", "token_p2_dot_f0", "token_p2_dot_f1", "key_fromstr_is_keytext_then_decode", "l3_unseal_exact_p3_f0_a0",
+                "pie_local_t2", "pw_local_t2", "seal_t2", "token_p2_nodot", "token_p2_dot_f1", "key_fromstr_is_keytext_then_decode", "l3_unseal_exact_p3_f0_a0",
                 "seal_hdr_t0", "token_hdr_p0_nodot")))
         if not keep:
             _h.tiers = "t"
